@@ -46,6 +46,28 @@ def _sign_of_2pi_i(e: ast.AST) -> Optional[int]:
     return None
 
 
+def _is_new_axis(e: ast.AST) -> bool:
+    return (isinstance(e, ast.Constant) and (e.value is None or e.value is Ellipsis)) or norm(e) in ("np.newaxis", "numpy.newaxis") or \
+        (isinstance(e, ast.Slice) and e.lower is None and e.upper is None and e.step is None)
+
+
+def _broadcast_view_of(e: ast.AST, base: str) -> bool:
+    """e is `base` with only size-1 axes inserted: base.reshape(…), np.expand_dims(base, …), base[..., None], base[:, None, None]
+    (the values and their order are those of base; which positions the new axes take is not decided here)."""
+    if norm(e) == base:
+        return True
+    if isinstance(e, ast.Call):
+        cn = call_name(e)
+        if cn.endswith(".reshape") and isinstance(e.func, ast.Attribute) and norm(e.func.value) == base:
+            return True
+        if cn in ("np.expand_dims", "numpy.expand_dims", "np.reshape", "numpy.reshape") and e.args and norm(e.args[0]) == base:
+            return True
+    if isinstance(e, ast.Subscript) and norm(e.value) == base:
+        elts = e.slice.elts if isinstance(e.slice, ast.Tuple) else [e.slice]
+        return all(_is_new_axis(x) for x in elts)
+    return False
+
+
 def run(ctx) -> None:
     idx = ctx.index
     ctx.assume("np.fft.ifftn and a pyFFTW FFTW_BACKWARD plan called through its object (normalise_idft default) both apply "
@@ -120,23 +142,37 @@ def run(ctx) -> None:
         r1.check(not bad, f"explicit-sum branch `{norm1(t_)}` carries no normalisation factor", callf, body[0],
                  f"the explicit branch `{norm1(t_)}` applies a normalisation factor the FFT branch does not have")
     hp = callf.params[2] if len(callf.params) > 2 else "hermitian"
-    herm = [s_ for s_ in stmts(callf.node) if isinstance(s_, ast.If) and norm(s_.test) == hp]
     res_names = {norm(s_.targets[0]) for _, body in chain for s_ in body if isinstance(s_, ast.Assign) and isinstance(s_.targets[0], ast.Name)
                  and body and s_ in body}
-    hform = None
-    if len(herm) == 1:
-        for x in herm[0].body:
-            if isinstance(x, ast.Assign) and isinstance(x.targets[0], ast.Name) and x.targets[0].id in res_names:
-                nm = x.targets[0].id
-                rv = CS.resolve(x.value, cfg.node(x))
-                for p_ in (f"0.5 * ({nm} + {nm}.swapaxes(*self.axes_hermitean).conj())", f"({nm} + {nm}.swapaxes(*self.axes_hermitean).conj()) / 2",
-                           f"0.5 * ({nm} + {nm}.swapaxes(*self.axes_hermitean).conjugate())", f"0.5 * ({nm} + np.conj({nm}.swapaxes(*self.axes_hermitean)))"):
-                    m_ = pmatch(rv, p_)
-                    if m_ and m_[0][0] is rv:
-                        hform = nm
-    okh = len(herm) == 1 and herm[0] in callf.node.body and callf.node.body.index(herm[0]) > callf.node.body.index(top) and hform is not None \
-        if top in callf.node.body else False
-    r1.check(okh, "Hermitisation ½(A + A†) follows the branch join (applies to every back end)", callf, herm[0] if herm else top,
+    # the assignment A = ½(A + A†), wherever it sits below the branch join, must be guarded by `hermitian` alone (a guard
+    # `hermitian or …` around it is implied by it)
+    herm_sites = []
+    after_top = callf.node.body[callf.node.body.index(top) + 1:] if top in callf.node.body else []
+    for top_s in after_top:
+        for x in ast.walk(top_s):
+            if not (isinstance(x, ast.Assign) and isinstance(x.targets[0], ast.Name) and x.targets[0].id in res_names):
+                continue
+            nm = x.targets[0].id
+            rv = CS.resolve(x.value, cfg.node(x))
+            hit = False
+            for p_ in (f"0.5 * ({nm} + {nm}.swapaxes(*self.axes_hermitean).conj())", f"({nm} + {nm}.swapaxes(*self.axes_hermitean).conj()) / 2",
+                       f"0.5 * ({nm} + {nm}.swapaxes(*self.axes_hermitean).conjugate())", f"0.5 * ({nm} + np.conj({nm}.swapaxes(*self.axes_hermitean)))"):
+                m_ = pmatch(rv, p_)
+                if m_ and m_[0][0] is rv:
+                    hit = True
+            if not hit:
+                continue
+            guards = []
+            for g_ in enclosing_all(pm, x, ast.If):
+                pol = any(x is y for b_ in g_.body for y in ast.walk(b_))
+                guards.append((g_.test, pol))
+            direct = [g_ for g_ in guards if norm(g_[0]) == hp and g_[1]]
+            implied = [g_ for g_ in guards if g_[1] and isinstance(g_[0], ast.BoolOp) and isinstance(g_[0].op, ast.Or)
+                       and any(norm(v_) == hp for v_ in g_[0].values)]
+            if len(direct) == 1 and len(direct) + len(implied) == len(guards):
+                herm_sites.append(x)
+    r1.check(len(herm_sites) == 1, "Hermitisation ½(A + A†) follows the branch join (applies to every back end)", callf,
+             herm_sites[0] if herm_sites else top,
              "the Hermitian symmetrisation ½(A + A†) is not applied after all back-end branches: some back ends return non-Hermitian H(k)")
     ax = {}
     kl_if = [s_ for s_ in ini.node.body if isinstance(s_, ast.If) and norm(s_.test) in ("k_list is not None", "k_list is None")]
@@ -162,7 +198,18 @@ def run(ctx) -> None:
             tg = s_.targets[0] if isinstance(s_, ast.Assign) else s_.target
             if isinstance(tg, ast.Subscript) and box is not None and norm(tg.value) == box and not (isinstance(tg.slice, ast.Constant) and tg.slice.value is Ellipsis):
                 stores_.append(s_)
-    if not stores_:
+    # unbuffered ufunc accumulation np.add.at(box, tuple(self.iRvec.T), blocks): duplicates are summed, block ir ↦ row ir of iRvec
+    add_at = [c for c in ast.walk(FB) if isinstance(c, ast.Call) and call_name(c) in ("np.add.at", "numpy.add.at") and len(c.args) == 3
+              and box is not None and norm(c.args[0]) == box]
+    for c in add_at:
+        r2.instance(f"{callf.short}: {norm1(c)}")
+        ix = CS.resolve(c.args[1], CS.du.node_of_expr(c))
+        ok_ix = norm(ix) in ("tuple(self.iRvec.T)", "tuple(self.iRvec.transpose())", "tuple(np.transpose(self.iRvec))",
+                             "(self.iRvec[:, 0], self.iRvec[:, 1], self.iRvec[:, 2])")
+        r2.check(ok_ix, "placement is the unbuffered accumulation np.add.at(box, (R mod N) as index tuple, blocks)", callf, c,
+                 f"`{norm1(c)}`: the index of the unbuffered accumulation is not the tuple of the three columns of self.iRvec: the "
+                 f"block and the box point do not belong to the same R-vector")
+    if not stores_ and not add_at:
         r2.expect(False, "placement on the FFT box located", callf, top, "FFT_R_to_k.__call__: placement of the R-blocks on the FFT box not found")
     gb_wrap = pmatch(ini.node, "self.iRvec = self.iRvec % self.NKFFT") or pmatch(ini.node, "self.iRvec = np.mod(self.iRvec, self.NKFFT)") or pmatch(ini.node, "self.iRvec %= self.NKFFT")
     r2.check(bool(gb_wrap), "box index = R mod NKFFT (distinct R may share a box point)", ini, ini.node,
@@ -222,8 +269,8 @@ def run(ctx) -> None:
     AS = Sem(idx, apf)
     rv_ = AS.resolve(ret[0].value, AS.cfg.node(ret[0])) if len(ret) == 1 else None
     okm = rv_ is not None and isinstance(rv_, ast.BinOp) and isinstance(rv_.op, ast.Mult) and (
-        (norm(rv_.left) == xp and bool(pmatch(rv_.right, "self.expdK.reshape(ANY)")) and pmatch(rv_.right, "self.expdK.reshape(ANY)")[0][0] is rv_.right) or
-        (norm(rv_.right) == xp and bool(pmatch(rv_.left, "self.expdK.reshape(ANY)")) and pmatch(rv_.left, "self.expdK.reshape(ANY)")[0][0] is rv_.left))
+        (norm(rv_.left) == xp and norm(rv_.right) != "self.expdK" and _broadcast_view_of(rv_.right, "self.expdK")) or
+        (norm(rv_.right) == xp and norm(rv_.left) != "self.expdK" and _broadcast_view_of(rv_.left, "self.expdK")))
     ed = [s_ for s_ in ast.walk(setf.node) if isinstance(s_, ast.Assign) and norm(s_.targets[0]) == "self.expdK"]
     oke = len(ed) == 1 and _sign_of_2pi_i(ed[0].value) == +1 and bool(
         pmatch(ed[0].value, "self.iRvec.dot(self.dK)") or pmatch(ed[0].value, "self.iRvec @ self.dK") or pmatch(ed[0].value, "np.dot(self.iRvec, self.dK)"))
@@ -246,8 +293,8 @@ def run(ctx) -> None:
         DS = Sem(idx, dv)
         rres = DS.resolve(rets[0].value, DS.cfg.node(rets[0]))
         sg, fs = product_factors(rres)
-        okd = imag_unit_sign(rres) == +1 and any(pmatch(f_, f"{dxp}.reshape(ANY)") and pmatch(f_, f"{dxp}.reshape(ANY)")[0][0] is f_ for f_ in fs) and \
-            any(pmatch(f_, "self.cRvec_shifted.reshape(ANY)") and pmatch(f_, "self.cRvec_shifted.reshape(ANY)")[0][0] is f_ for f_ in fs) and len(fs) == 3
+        okd = imag_unit_sign(rres) == +1 and any(norm(f_) != dxp and _broadcast_view_of(f_, dxp) for f_ in fs) and \
+            any(norm(f_) != "self.cRvec_shifted" and _broadcast_view_of(f_, "self.cRvec_shifted") for f_ in fs) and len(fs) == 3
     r4.check(okd, "∂/∂k ↦ multiplication by +i (R + τj − τi)", dv, rets[0] if rets else dv.node,
              "the k-derivative is no longer multiplication of X(R) by +i·(R + τj − τi) (the sign must match exp(+ik·R))", stmt="derivative")
     r4.instance(rk.short)
@@ -272,6 +319,15 @@ def run(ctx) -> None:
                     rv2 = d2.value
                 okr = isinstance(rv2, ast.Call) and norm(rv2.func) == "self.fft_R_to_k" and rv2.args and norm(rv2.args[0]) == v_ and \
                     kwarg(rv2, "hermitian", 1) is not None and norm(kwarg(rv2, "hermitian", 1)) == hp2
+    if not okr:
+        # functional form: self.fft_R_to_k(reduce(lambda X, _: self.derivative(X), range(der), XX_R), hermitian=hermitian), possibly via a helper
+        for c_ in [c for c in ast.walk(rk.node) if isinstance(c, ast.Call) and norm(c.func) == "self.fft_R_to_k" and c.args]:
+            a_ = KS.resolve(c_.args[0], KS.du.node_of_expr(c_))
+            if isinstance(a_, ast.Call) and call_name(a_) in ("reduce", "functools.reduce") and len(a_.args) == 3 and isinstance(a_.args[0], ast.Lambda):
+                lam = a_.args[0]
+                lp_ = [x.arg for x in lam.args.args]
+                okr = len(lp_) == 2 and norm(lam.body) == f"self.derivative({lp_[0]})" and norm(a_.args[1]) == f"range({derp})" and \
+                    norm(a_.args[2]) in (xr, f"{xr}.copy()") and kwarg(c_, "hermitian", 1) is not None and norm(kwarg(c_, "hermitian", 1)) == hp2
     r4.check(okr, "R_to_k applies the derivative `der` times, then one transform", rk, rk.node,
              "R_to_k no longer applies `der` derivative factors before a single transform", stmt="R_to_k")
     hdef = None
